@@ -236,3 +236,99 @@ pub fn module(rng: &mut Rng) -> String {
     s.push_str("}\n");
     s
 }
+
+// ---------------------------------------------------------------------------------------------
+// Multi-byte text INSIDE TOKENS (string literals), followed by further tokens on the same line.
+
+const MB: &[&str] = &["é", "°C", "température", "温度", "日本語", "🎉", "ü", "Ω→", "𝔘𝔫𝔦", "naïve café", "値 %d", "ß%h"];
+
+pub fn mb_text(rng: &mut Rng) -> String {
+    let k = 1 + rng.below(3);
+    let mut s = String::new();
+    for i in 0..k {
+        if i > 0 {
+            s.push(' ');
+        }
+        let w: &str = *rng.pick::<&str>(MB);
+        s.push_str(w);
+        if rng.chance(1, 3) {
+            s.push_str(" %d");
+        }
+    }
+    s
+}
+
+/// An analyzer-clean module whose statements carry string literals with 2-, 3- and 4-byte
+/// characters, several per line, each followed by more tokens on the same line.
+pub fn string_module(rng: &mut Rng) -> String {
+    let mut s = String::new();
+    s.push_str(&format!("module StrSyn{} (\n    i_clk: input clock,\n    i_d  : input logic<8>,\n) {{\n", rng.below(1000)));
+    let nconst = rng.below(3);
+    for i in 0..nconst {
+        s.push_str(&format!("    const MSG{i}: string = \"{}\"; const N{i}: u32 = {};\n", mb_text(rng), rng.below(99)));
+    }
+    s.push_str("    var temp: logic<8>; var mode: logic<8>;\n    assign temp = i_d; assign mode = i_d + 1;\n");
+    if rng.chance(1, 2) {
+        s.push_str(&format!("    #[sv(\"mark={}\")]\n    var marked: logic<8>;\n    assign marked = temp;\n", mb_text(rng).replace(' ', "_")));
+    }
+    let fns = ["$display", "$write", "$info", "$warning"];
+    let call = |rng: &mut Rng| -> String {
+        let f: &str = *rng.pick::<&str>(&fns);
+        let nargs = rng.below(4);
+        let args: Vec<&str> = (0..nargs).map(|i| ["temp", "mode", "i_d", "temp + mode"][i as usize % 4]).collect();
+        if args.is_empty() {
+            format!("{f}(\"{}\");", mb_text(rng))
+        } else {
+            format!("{f}(\"{}\", {});", mb_text(rng), args.join(", "))
+        }
+    };
+    let blocks = 1 + rng.below(3);
+    for _ in 0..blocks {
+        match rng.below(3) {
+            0 => {
+                s.push_str("    initial {\n");
+                for _ in 0..1 + rng.below(3) {
+                    // one or two calls per source line
+                    if rng.chance(1, 2) {
+                        s.push_str(&format!("        {} {}\n", call(rng), call(rng)));
+                    } else {
+                        s.push_str(&format!("        {}\n", call(rng)));
+                    }
+                }
+                s.push_str("    }\n");
+            }
+            1 => {
+                s.push_str("    always_ff (i_clk) {\n");
+                s.push_str(&format!("        if temp == {} {{ {} }} else {{ {} }}\n", rng.below(9), call(rng), call(rng)));
+                s.push_str("    }\n");
+            }
+            _ => {
+                s.push_str("    final {\n");
+                s.push_str(&format!("        {} {}\n", call(rng), call(rng)));
+                s.push_str("    }\n");
+            }
+        }
+    }
+    s.push_str("}\n");
+    s
+}
+
+/// Rewrite existing string literals of a text: multi-byte characters are put in front of the
+/// closing quote (strings of `include`/`embed` declarations name files or languages: untouched).
+pub fn mutate_strings(src: &str, rng: &mut Rng, permille: u64) -> String {
+    use vcommon::lex::{Kind, lex};
+    if src.contains("include") {
+        return src.to_string();
+    }
+    let mut out = String::with_capacity(src.len() + 64);
+    for t in lex(src, false) {
+        if t.kind == Kind::Str && t.text.len() >= 2 && t.text.ends_with('"') && rng.below(1000) < permille {
+            out.push_str(&t.text[..t.text.len() - 1]);
+            out.push_str(&mb_text(rng));
+            out.push('"');
+        } else {
+            out.push_str(&t.text);
+        }
+    }
+    out
+}
